@@ -474,6 +474,23 @@ class Sim:
             self.outcome = outcome
         return outcome
 
+    def next_loop(self) -> None:
+        """Continue the execution on a fresh event loop while the virtual clock keeps running - what a program does that
+        calls ``asyncio.run`` twice and re-uses module-level decorated functions."""
+        old = self.loop
+        now = old._now
+        try:
+            old.close()
+        except Exception:  # noqa: BLE001
+            pass
+        self.loop = SimLoop(self)
+        self.loop._now = now
+        self.externals.clear()
+        self.injections.clear()
+        self.main = None
+        self.stats["second_event_loop"] += 1
+        self.event("next-loop")
+
     def close(self) -> None:
         self.finished = True
         for job in getattr(self, "executor_jobs", ()):
